@@ -82,6 +82,11 @@ CHECKS = {
   "A reference predicate (unchanged, issued by this server's key, right address - exact for Retry, IP for NEW_TOKEN -, within lifetime, first use, log present) is compared with what the server concluded for ~6000 quick / 400000 thorough presentations across key kinds (ring HKDF+AEAD, keyed hash), log kinds, lifetimes, seven mutation kinds, three source addresses and five presentation times; clients never follow an altered Retry (seven field mutations, plaintext and rustls lanes), follow a genuine one once, ignore a verifying Retry once another server packet was processed; altered CID-echo parameters never yield Connected; the token log never accepts a nonce twice and the token cache never hands a token out twice or to the wrong server over long random histories.",
   "forgeries are sampled, not excluded; expiry is probed 3 s around the lifetime; a verifying forged Retry can only be built on the plaintext lane (harness tag function)",
   "DESIGN.md section 4 C14"),
+ "C15": ("exploration",
+  "runtime monitoring: per-connection log of every Transmit.destination judged against the harness's ground truth of genuine client addresses over time and of attacker replays (source, time, bytes); completion and loss oracles; C07 amplification monitor on each new path",
+  "Worlds with 1-4 genuine address changes (port-only / whole address, with and without local_address_changed) during bidirectional transfers under loss and CID rotation (plaintext and rustls lanes): transfers complete, nothing is lost, the server only ever sends to addresses the client really used and ends at its final one, each new path respects the 3x limit. Worlds where an attacker replays genuine client datagrams from third addresses, racing or trailing the original: transmits to such an address stay within 3 PTO of the last replay and within 3x the replayed bytes (plus the documented one-datagram allowance per visit), remote_address() ends genuine, the transfer completes. Clients and servers with migration disabled never send a single datagram elsewhere.",
+  "PTO taken as the maximum reported through the probe; pad_to_mtu / BBR / tiny fixed windows excluded (their findings live under C02 / C12); cumulative amplification across repeated visits to the same spoofed address is the finding recorded under C07",
+  "DESIGN.md section 4 C15"),
  "C10": ("exploration",
   "runtime monitoring: round-trip and totality oracles over quinn's real codecs (hooks H3) against an independent wire codec, with exhaustive sub-spaces; the same sweeps repeated under AddressSanitizer and Miri",
   "encode->decode->compare for varints (all 2^30 four-byte values, all 1/2-byte values), packet numbers (window sweeps around 2^7/2^15/2^23/2^31), every frame type with boundary-valued fields, headers (type x CID length x pn length x token length), transport parameters, tokens and reset tokens; decoders fed arbitrary and mutated bytes must return an error or a value that re-encodes consistently, never panic, never read out of bounds (ASan, Miri lanes). Held on 5.6e7 inputs quick / 5.5e9 thorough.",
